@@ -254,6 +254,7 @@ package encrypt
 //@   ensures C09/fails-closed-an-error-forwards-nothing: err != nil ==> out == nil
 //@   ensures C09+C16/a-rotation-payload-is-consumed-never-forwarded: e != nil && old(e.Payload != nil && !nothingFiltered(ef.FilterOperationOverrides) && tagImplements(tagof(e.Payload), "RotateWrapper")) ==> out == nil && err == nil
 //@   ensures C16+C19/rotation-is-one-exclusive-critical-section: e != nil && old(e.Payload != nil && !nothingFiltered(ef.FilterOperationOverrides) && tagImplements(tagof(e.Payload), "RotateWrapper")) ==> acquisitions(ef.l) == old(acquisitions(ef.l)) + 1 && events("sys:deepcopy") == old(events("sys:deepcopy"))
+//@   ensures C16/rotated-salt-and-info-have-the-length-of-the-payloads-salt-and-info: e != nil && old(e.Payload != nil && !nothingFiltered(ef.FilterOperationOverrides) && tagImplements(tagof(e.Payload), "RotateWrapper")) ==> (ef.HmacInfo == old(ef.HmacInfo) || len(ef.HmacInfo) == uf("rotate.infolen", old(e.Payload))) && (ef.HmacSalt == old(ef.HmacSalt) || len(ef.HmacSalt) == uf("rotate.saltlen", old(e.Payload)))
 //@   ensures C10/nil-payload-is-forwarded-unchanged: e != nil && old(e.Payload == nil) ==> out == e && err == nil && ev_n == old(ev_n)
 //@   ensures C10/all-operations-none-is-forwarded-unchanged: e != nil && old(e.Payload != nil && nothingFiltered(ef.FilterOperationOverrides)) ==> out == e && err == nil && ev_n == old(ev_n)
 //@   ensures C10/the-original-is-handed-back-only-when-nothing-is-filtered: out != nil && out == e ==> old(e.Payload == nil || nothingFiltered(ef.FilterOperationOverrides) || ufbool("reflect.IsZero", payloadValueOf(e)))
@@ -299,8 +300,10 @@ package encrypt
 //@   assigns nothing
 //@ iface RotateWrapper.HmacSalt() (s)
 //@   assigns nothing
+//@   ensures assumed-the-accessor-is-deterministic-in-length: len(s) == uf("rotate.saltlen", recv)
 //@ iface RotateWrapper.HmacInfo() (s)
 //@   assigns nothing
+//@   ensures assumed-the-accessor-is-deterministic-in-length: len(s) == uf("rotate.infolen", recv)
 //@ iface EventWrapperInfo.EventId() (id)
 //@   assigns nothing
 //@ iface EventWrapperInfo.HmacSalt() (s)
